@@ -76,7 +76,7 @@ def valid(case):
 class C12(Prop):
     id = "C12"
     anchored = ["src/pewlib/process/register.py"]
-    cases = {"quick": 260, "thorough": 6000}
+    cases = {"quick": 700, "thorough": 12000}
     rule = ("two windows (sub-window, super-window or partially overlapping; 1-3 D; every side drawn independently, "
             "odd and even, incl. 1 and 2; translations of either sign inside the lag box) of one generated scene "
             "(signed / sparse / blob / positive / real-valued dyadic texture); non-trivial = the exact cross-correlation "
@@ -320,6 +320,16 @@ class C12(Prop):
                     yield {**case, "bs": [b]}
             return
         d = len(case["scene"]["shape"])
+        # crop the scene to the bounding box of the two windows
+        A, B, sc = case["A"], case["B"], case["scene"]
+        lo = [min(x, y) for x, y in zip(A["off"], B["off"])]
+        hi = [max(x + p, y + q) for x, p, y, q in zip(A["off"], A["shape"], B["off"], B["shape"])]
+        if any(l > 0 for l in lo) or hi != sc["shape"]:
+            arr = np.array(sc["data"], dtype=object).reshape(sc["shape"])
+            sub = arr[tuple(slice(l, h) for l, h in zip(lo, hi))]
+            yield {**case, "scene": {"shape": list(sub.shape), "data": [int(v) for v in sub.ravel()], "q": sc["q"]},
+                   "A": {"off": [x - l for x, l in zip(A["off"], lo)], "shape": A["shape"]},
+                   "B": {"off": [x - l for x, l in zip(B["off"], lo)], "shape": B["shape"]}}
         for key in ("A", "B"):
             w = case[key]
             for ax in range(d):
